@@ -22,8 +22,8 @@ ASSUMPTIONS = ['event codes are integers; responses and data are finite binary64
                'windows of all events lie inside the recording (k + offset + L <= N), the domain on which the estimators are defined',
                'FIR designs are full column rank (checked by an independent dense rank computation; rank-deficient designs are counted and skipped)',
                'ets is judged only for types with >= 2 occurrences (the standard error of one sample is undefined: nan in both)']
-TRUSTED_EXTRA = ['scipy.linalg.pinv(X^T X) X^T y is modelled, for full column rank, as the exact solution of the normal equations (own Gauss-Jordan '
-                 'elimination over Rat + exact residual check); binary64 rounding of LAPACK is not modelled (FIR compared at 1e-9 of the largest magnitude)',
+TRUSTED_EXTRA = ['scipy.linalg.pinv(X^T X) X^T y is modelled, for full column rank, as the exact solution of the normal equations (own Gaussian '
+                 'elimination over Rat, proved sound and total in Lean); binary64 rounding of LAPACK is not modelled (FIR compared at 1e-9 of the largest magnitude)',
                  'np.unique / np.where / np.roll / np.hstack / np.mean / scipy.stats.sem / fancy indexing are modelled by their documented semantics',
                  'designEntry is the closed form of the accumulated design matrix; Lean proves it equal to the per-event accumulation (designEntry_eq_eventSum) '
                  'and the op `design` compares it with utils.fir_design_matrix entry by entry',
@@ -69,7 +69,11 @@ def canon_ts(T):
 
 def run_impl(sp):
     ts, ERA, tsu = nt()
-    if sp['kind'] == 'design':
+    if sp['kind'] == 'planted':
+        # the harness's own ground-truth signal (what the oracle plants), to be compared with the
+        # Lean specification function `planted` that the theorems are stated with
+        return 'ok ' + flist(plant(sp['ev'], sp['resp'][0], sp['L'], sp['off'], len(sp['ev'])))
+    if sp['kind'] in ('design', 'designsum'):
         def f():
             m = tsu.fir_design_matrix(np.array(sp['ev'], dtype=float if sp.get('evfloat') else int), sp['L'])
             if np.any(m != np.round(m)):
@@ -116,8 +120,12 @@ def run_impl(sp):
 
 
 def line_of(sp):
-    if sp['kind'] == 'design':
-        return 'C19 design %d %s' % (sp['L'], ilist(sp['ev']))
+    if sp['kind'] in ('design', 'designsum'):
+        return 'C19 %s %d %s' % (sp['kind'], sp['L'], ilist(sp['ev']))
+    if sp['kind'] == 'planted':
+        codes = my_types(sp['ev'])
+        return 'C19 planted %d %d %s %s %s' % (sp['off'], sp['L'], ilist(sp['ev']), ilist(codes),
+                                                flist([v for c in codes for v in sp['resp'][0][str(c)]]))
     evs = sp['ev'] if sp['kind'] == 'series' else sp['times']
     return 'C19 %s %s %d %d %d %d %d %d %d %s %s' % (
         sp['kind'], sp['what'], sp['off'], sp['L'], 1 if sp['cb'] else 0, si_ps(sp['si'], sp['unit']),
@@ -168,7 +176,7 @@ def make_cmp(sp):
 
 
 def mk_case(sp):
-    if sp['kind'] != 'design' and sp['what'] == 'fir' and 'rank_deficient' not in sp:
+    if sp['kind'] in ('series', 'events') and sp['what'] == 'fir' and 'rank_deficient' not in sp:
         sp['rank_deficient'] = not full_rank(sp)
     clause = sp['kind'] + '/' + sp.get('what', 'matrix')
     nontriv = any(v != 0 for v in sp.get('data', [1])) and (len(sp.get('times', [])) > 0 or any(sp.get('ev', [])))
@@ -369,6 +377,8 @@ def fixed_specs():
     out.append({'kind': 'design', 'L': 2, 'ev': [0, 1, 0, -1, 0, 0]})
     out.append({'kind': 'design', 'L': 2, 'ev': [0, 1, 0, 0, 0, 1]})     # short slice -> ValueError
     out.append({'kind': 'design', 'L': 3, 'ev': [2, 1, 2, 0, 7, 0, 0]})
+    out.append({'kind': 'designsum', 'L': 2, 'ev': [0, 1, 0, -1, 0, 0]})
+    out.append({'kind': 'planted', 'off': 1, 'L': 2, 'ev': [0, 1, -2, 0, 1, 0, 0, 0], 'resp': [{'1': [3.0, 5.0], '-2': [7.0, 4.0]}]})
     return out
 
 
@@ -396,6 +406,12 @@ def gen_specs(rng, tier):
             for k in range(max(0, N - L + 1), N):
                 ev[k] = 0
         specs.append({'kind': 'design', 'L': L, 'ev': ev, 'evfloat': rng.random() < 0.3})
+        if i % 2 == 0:
+            specs.append({'kind': 'designsum', 'L': L, 'ev': ev})
+        if i % 4 == 0:
+            q = gen_series(rng, tier, rng.choice(['fir', 'eta']))
+            if not q['nch']:
+                specs.append({'kind': 'planted', 'off': q['off'], 'L': q['L'], 'ev': q['ev'], 'resp': q['resp']})
     return specs
 
 
@@ -433,8 +449,10 @@ def expected(sp):
 
 def check_case(c):
     sp = c.meta
-    if sp['kind'] == 'design':
+    if sp['kind'] in ('design', 'designsum'):
         return check_design(c)
+    if sp['kind'] == 'planted':
+        return None
     w, kind = sp['what'], sp['kind']
     pre = ('fir' if w == 'fir' else w) + ('/events-input' if kind == 'events' else '')
 
